@@ -64,31 +64,83 @@ def tree_payload(tree) -> list:
     return sorted(out)
 
 
-def _do(detector, a):
+def _write(detector, a, step):
+    """One writer action.  mode = "assign": a new buffer replaces the container's (`.array = new`,
+    `.array_3d = new`; charge: `empty()` then `add_charge_array`).  mode = "iadd": the values are added to
+    the container's buffer IN PLACE (`+=`, three idioms; charge: `add_charge_array`).  mode = "iset": the
+    buffer is overwritten in place (`.array[...] = new`).  On an uninitialised container "iadd" / "iset" can
+    only initialise it (a new buffer)."""
     import xarray as xr
 
     geo = detector.geometry
     shape = (geo.row, geo.col)
+    b = a["bucket"]
+    mode = a.get("mode", "assign")
+    idiom = int(a.get("idiom", 0))
+    v = a["per_step"][step]
+    if v < 0:
+        return                                  # the writer does nothing at this step
+    waves = int(a.get("waves", 0))
+    shp = ((waves,) + shape) if (b == "photon" and waves) else shape
+    arr = (np.arange(int(np.prod(shp)), dtype=object) + int(v)).reshape(shp)
+    if b == "photon":
+        cur = detector.photon._array
+        dt = a["dtype"] if (cur is None or mode == "assign") else cur.dtype
+        val = arr.astype(dt)
+        if waves:
+            val = xr.DataArray(val, dims=["wavelength", "y", "x"],
+                               coords={"wavelength": [500.0 + 100.0 * k for k in range(waves)]})
+        if mode == "assign" or (cur is None and mode == "iset"):
+            if waves:
+                detector.photon.array_3d = val
+            else:
+                detector.photon.array = val
+        elif mode == "iadd":
+            detector.photon += val              # the documented idiom (Photon.__iadd__)
+        elif mode == "iset":
+            if waves:
+                detector.photon.array_3d.values[...] = np.asarray(val)
+            else:
+                detector.photon.array[...] = val
+        else:
+            raise ValueError(mode)
+    elif b == "charge":
+        if mode == "assign":
+            detector.charge.empty()
+            detector.charge.add_charge_array(arr.astype(float))
+        elif mode == "iadd":
+            detector.charge.add_charge_array(arr.astype(float))
+        elif mode == "iset":
+            detector.charge.array[...] = arr.astype(float)
+        else:
+            raise ValueError(mode)
+    else:
+        obj = getattr(detector, b)
+        cur = obj._array
+        if mode == "assign" or cur is None:
+            obj.array = arr.astype(a["dtype"])
+        elif mode == "iadd":
+            val = arr.astype(cur.dtype)
+            if idiom == 1:
+                obj += val                      # ArrayBase.__iadd__ ...
+                setattr(detector, b, obj)       # ... as in `detector.pixel += val`
+            elif idiom == 2:
+                np.add(cur, val, out=cur)
+            else:
+                obj.array += val
+        elif mode == "iset":
+            obj.array[...] = arr.astype(cur.dtype)
+        else:
+            raise ValueError(mode)
+
+
+def _do(detector, a):
+    import xarray as xr
+
     step = int(detector.pipeline_count)
     kind = a["kind"]
     if kind == "write":
-        b = a["bucket"]
-        v = a["per_step"][step]
-        waves = int(a.get("waves", 0))
-        shp = ((waves,) + shape) if (b == "photon" and waves) else shape
-        arr = (np.arange(int(np.prod(shp)), dtype=object) + int(v)).reshape(shp)
-        if b == "photon":
-            arr = arr.astype(a["dtype"])
-            if waves:
-                detector.photon.array_3d = xr.DataArray(
-                    arr, dims=["wavelength", "y", "x"],
-                    coords={"wavelength": [500.0 + 100.0 * k for k in range(waves)]})
-            else:
-                detector.photon.array = arr
-        elif b == "charge":
-            detector.charge.add_charge_array(arr.astype(float))
-        else:
-            getattr(detector, b).array = arr.astype(a["dtype"])
+        _write(detector, a, step)
     elif kind == "data":
         detector.data[a["key"]] = xr.DataArray([int(a["per_step"][step])], dims="n")
     elif kind == "scene":
